@@ -690,6 +690,13 @@ pub(crate) fn run(replay: Option<&str>) -> Report {
     }
     let scs = scenarios();
     if let Some(case) = replay {
+        if case.starts_with("c18-bmp-") {
+            if !super::c18bmp::replay(&mut rep, case) {
+                rep.machinery_error = Some("bad replay case".into());
+            }
+            rep.evaluations = 1;
+            return rep;
+        }
         if case.starts_with("c18-sequential#") {
             let m = seq_model(&px);
             if let Some((_, hist)) = crate::verif::vx::bfs::decode_case(case) {
@@ -797,5 +804,6 @@ pub(crate) fn run(replay: Option<&str>) -> Report {
     let depth = if thorough { 10 } else { 6 };
     crate::verif::vx::bfs::bfs(&m, &crate::verif::vx::bfs::BfsCfg { max_depth: depth, max_secs: if thorough { 600 } else { 20 }, ..Default::default() }, &mut rep);
     rep.notes.push(format!("c18-sequential: BFS depth {depth} over insert (accepted / rejected by import policy) / remove / peer drop / GR drop / reconnect / stale purge / timer drop / LLGR start / LLGR purge / soft_reset_in / policy toggle / deferral / subscribe(snapshot) / unsubscribe: {} states; the subscriber's folded view is compared with the RIB after every step", rep.states - before));
+    super::c18bmp::run_into(&mut rep, thorough);
     rep
 }
